@@ -27,6 +27,7 @@ type fctx struct {
 	used      map[string]int
 	params    []*types.Var // parameters of the function (in order), for loop closures
 	locals    map[*types.Var]bool
+	inout     []*types.Var // pointer parameters that are written through: returned after the results
 }
 
 // what follows a statement list: the term for falling off its end, for `continue` and for `break`
@@ -101,6 +102,9 @@ func (fc *fctx) function(recv *ast.FieldList, ft *ast.FuncType, body *ast.BlockS
 			v := t.info.ObjectOf(nm).(*types.Var)
 			fc.params = append(fc.params, v)
 			params = append(params, "("+fc.varName(v)+" : "+t.coqType(f, v.Type())+")")
+			if t.kindOf(v.Type()) == kSuitePtr {
+				fc.inout = append(fc.inout, v)
+			}
 		}
 		if len(f.Names) == 0 {
 			t.fail(f, "unnamed parameter")
@@ -131,10 +135,23 @@ func (fc *fctx) function(recv *ast.FieldList, ft *ast.FuncType, body *ast.BlockS
 		results = types.NewTuple()
 	}
 	fc.resT = t.tupleType(ft, results)
+	if len(fc.inout) > 0 {
+		var parts []string
+		for i := 0; i < results.Len(); i++ {
+			parts = append(parts, t.coqType(ft, results.At(i).Type()))
+		}
+		for range fc.inout {
+			parts = append(parts, "suite_cfg")
+		}
+		fc.resT = "(" + strings.Join(parts, " * ") + ")"
+		if len(parts) == 1 {
+			fc.resT = parts[0]
+		}
+	}
 	fc.sig = types.NewSignatureType(nil, nil, nil, nil, results, false)
 	end := "Pnc (* missing return *)"
 	if results.Len() == 0 {
-		end = "Val tt"
+		end = "Val " + fc.withInout(nil)
 	}
 	term := fc.block(body.List, konts{next: end})
 	var b strings.Builder
@@ -154,6 +171,20 @@ func (fc *fctx) function(recv *ast.FieldList, ft *ast.FuncType, body *ast.BlockS
 	}
 	b.WriteString(hdr + " : res " + fc.resT + " :=\n  " + term + ".\n")
 	return b.String()
+}
+
+// withInout: the returned tuple, the current values of the in/out parameters last
+func (fc *fctx) withInout(vals []string) string {
+	for _, v := range fc.inout {
+		vals = append(vals, fc.varName(v))
+	}
+	if len(vals) == 0 {
+		return "tt"
+	}
+	if len(vals) == 1 {
+		return vals[0]
+	}
+	return "(" + strings.Join(vals, ", ") + ")"
 }
 
 func terminates(list []ast.Stmt) bool {
@@ -257,6 +288,12 @@ func (fc *fctx) assigned(list []ast.Stmt) []*types.Var {
 				}
 			case *ast.IncDecStmt:
 				mark(x.X)
+			case *ast.UnaryExpr:
+				if x.Op == token.AND {
+					if id, ok := x.X.(*ast.Ident); ok && t.kindOf(t.info.TypeOf(id)) == kSuite {
+						mark(id)
+					}
+				}
 			case *ast.DeclStmt:
 				if gd, ok := x.Decl.(*ast.GenDecl); ok {
 					for _, sp := range gd.Specs {
@@ -400,6 +437,8 @@ func (fc *fctx) block(list []ast.Stmt, k konts) string {
 		return fc.switchStmt(s, rest, k)
 	case *ast.ForStmt:
 		return fc.forStmt(s, rest, k)
+	case *ast.RangeStmt:
+		return fc.rangeStmt(s, rest, k)
 	}
 	t.fail(s, "statement form %T", s)
 	return ""
@@ -435,7 +474,7 @@ func (fc *fctx) join(a, b []ast.Stmt, cond string, rest []ast.Stmt, k konts, at 
 func (fc *fctx) ret(s *ast.ReturnStmt) string {
 	t := fc.t
 	n := fc.sig.Results().Len()
-	if len(s.Results) == 1 && n > 1 {
+	if len(s.Results) == 1 && n > 1 && len(fc.inout) == 0 {
 		// return f(...) with a tuple result
 		c, ok := s.Results[0].(*ast.CallExpr)
 		if !ok {
@@ -462,11 +501,16 @@ func (fc *fctx) ret(s *ast.ReturnStmt) string {
 			switch t.kindOf(want) {
 			case kBytes:
 				v = "[]"
+			case kSuite:
+				v = t.zero(r, want)
 			default:
 				v = "None"
 			}
 		}
 		vals = append(vals, v)
+	}
+	if len(fc.inout) > 0 {
+		return fc.flush() + "Val " + fc.withInout(vals)
 	}
 	if n == 0 {
 		return fc.flush() + "Val tt"
@@ -508,6 +552,31 @@ func (fc *fctx) store(lhs ast.Expr, val string) string {
 		}
 		ix := fc.toZ(l.Index)
 		return fc.flush() + "do " + fc.varName(v) + " <- set_idx " + fc.varName(v) + " " + ix + " " + val + ";\n  "
+	case *ast.SelectorExpr:
+		id, ok := l.X.(*ast.Ident)
+		k := fc.kind(l.X)
+		if ok && (k == kSuite || k == kSuitePtr) {
+			v := t.info.ObjectOf(id).(*types.Var)
+			if v.Parent() == t.pkg.Types.Scope() {
+				t.fail(lhs, "assignment to a field of package variable %s", id.Name)
+			}
+			name := fc.varName(v)
+			var parts []string
+			found := false
+			for _, f := range fieldProj["SuiteConfig"] {
+				pf := strings.Split(f, ":")
+				if pf[0] == l.Sel.Name {
+					parts = append(parts, val)
+					found = true
+				} else {
+					parts = append(parts, "("+pf[1]+" "+name+")")
+				}
+			}
+			if !found {
+				t.fail(lhs, "field %s", l.Sel.Name)
+			}
+			return fc.flush() + "let " + name + " := mkSuite " + strings.Join(parts, " ") + " in\n  "
+		}
 	}
 	t.fail(lhs, "assignment target %T", lhs)
 	return ""
@@ -552,12 +621,20 @@ func (fc *fctx) assign(s *ast.AssignStmt) string {
 		return fc.store(s.Lhs[0], val)
 	}
 	if len(s.Rhs) == 1 {
-		// a, b := f(...)
-		c, ok := s.Rhs[0].(*ast.CallExpr)
-		if !ok {
-			t.fail(s, "tuple assignment from %T", s.Rhs[0])
+		// a, b := f(...)   or   v, ok := knownSuites[key]
+		var v string
+		if ix, isIx := s.Rhs[0].(*ast.IndexExpr); isIx {
+			if id, ok := ix.X.(*ast.Ident); !ok || id.Name != "knownSuites" || len(s.Lhs) != 2 {
+				t.fail(s, "comma-ok form on something else than the suite registry")
+			}
+			v = "(lookup_go " + fc.expr(ix.Index) + ")"
+		} else {
+			c, ok := s.Rhs[0].(*ast.CallExpr)
+			if !ok {
+				t.fail(s, "tuple assignment from %T", s.Rhs[0])
+			}
+			v = fc.call(c, len(s.Lhs))
 		}
-		v := fc.call(c, len(s.Lhs))
 		var pats []string
 		var after string
 		for _, l := range s.Lhs {
@@ -850,4 +927,89 @@ func isUnsafeCast(e ast.Expr) bool {
 	}
 	u, ok := in.Args[0].(*ast.UnaryExpr)
 	return ok && u.Op == token.AND && exprText(u.X) == "b"
+}
+
+// for _, x := range <[]string> { body }: structural recursion on the list
+func (fc *fctx) rangeStmt(s *ast.RangeStmt, rest []ast.Stmt, k konts) string {
+	t := fc.t
+	if fc.kind(s.X) != kStrList {
+		t.fail(s, "range over %s", fc.typeOf(s.X))
+	}
+	if s.Key != nil {
+		if id, ok := s.Key.(*ast.Ident); !ok || id.Name != "_" {
+			t.fail(s, "range with an index variable")
+		}
+	}
+	if s.Tok != token.DEFINE && s.Value != nil {
+		t.fail(s, "range assigning to existing variables")
+	}
+	fc.needsFuel = true
+	*fc.nfor++
+	name := fmt.Sprintf("%s_loop%d", coqName(fc.q), *fc.nfor)
+	listExpr := fc.expr(s.X)
+	pre := fc.flush()
+	elem := "_"
+	if id, ok := s.Value.(*ast.Ident); ok && id.Name != "_" {
+		elem = fc.varName(t.info.Defs[id].(*types.Var))
+	}
+	lv := fc.assigned(s.Body.List)
+	lvSet := map[*types.Var]bool{}
+	for _, v := range lv {
+		lvSet[v] = true
+	}
+	var nodes []ast.Node
+	if s.Value != nil {
+		nodes = append(nodes, s.Value)
+	}
+	nodes = append(nodes, s.Body)
+	iv := fc.freeVars(nodes, lvSet)
+	lvNames, lvBinders := fc.varList(lv)
+	var ivNames, ivBinders []string
+	for _, v := range iv {
+		ivNames = append(ivNames, fc.varName(v))
+		ivBinders = append(ivBinders, "("+fc.varName(v)+" : "+t.coqType(s, v.Type())+")")
+	}
+	sub := *fc
+	sub.pre = nil
+	sub.loops = nil
+	const poolMark = "\x01POOLS\x01"
+	a := []string{name, "range_rest", "fuel0", poolMark}
+	a = append(a, ivNames...)
+	if len(lv) > 0 {
+		a = append(a, lvNames)
+	}
+	a = append(a, "kx")
+	rec := strings.Join(a, " ")
+	exit := "kx " + lvNames
+	body := sub.block(s.Body.List, konts{next: rec, cont: rec, brk: exit})
+	fc.ntmp = sub.ntmp
+	fc.loops = append(fc.loops, sub.loops...)
+	pools := fc.poolList()
+	var poolBinders []string
+	for _, p := range pools {
+		poolBinders = append(poolBinders, "("+p+" : bytes)")
+	}
+	kxT := "(kx : "
+	if len(lv) == 0 {
+		kxT += "unit -> "
+	}
+	for _, v := range lv {
+		kxT += t.coqType(s, v.Type()) + " -> "
+	}
+	kxT += "res " + fc.resT + ")"
+	def := "Fixpoint " + name + " (range_list : list bytes) (fuel0 : nat) " + strings.Join(poolBinders, " ") + " " + strings.Join(ivBinders, " ") + " "
+	if len(lv) > 0 {
+		def += lvBinders + " "
+	}
+	def += kxT + " {struct range_list} : res " + fc.resT + " :=\n  match range_list with\n  | [] => " + exit + "\n  | " + elem + " :: range_rest =>\n  " + body + "\n  end.\n"
+	def = strings.ReplaceAll(def, poolMark, strings.Join(pools, " "))
+	fc.loops = append(fc.loops, def)
+	restT := fc.block(rest, k)
+	c := []string{name, listExpr, "fuel0"}
+	c = append(c, pools...)
+	c = append(c, ivNames...)
+	if len(lv) > 0 {
+		c = append(c, lvNames)
+	}
+	return pre + strings.Join(c, " ") + " (fun " + lvBinders + " =>\n  " + restT + ")"
 }
